@@ -262,7 +262,7 @@ pub mod ffi {
     // borrowing struct <-> opaque
     pub struct CycRef<'a> { pub a: &'a CycA }
     impl<'a> CycRef<'a> {
-        pub fn a(self) -> &'a CycA { self.a }
+        pub fn get_a(self) -> &'a CycA { self.a }
     }
 }
 """ % {"U": U}
@@ -685,7 +685,9 @@ _IMPORT = re.compile(r"^\s*import\s+(type\s+)?(.*?)\s+from\s*[\"']([^\"']+)[\"']
 def js_exports(txt, ts=False):
     names = set(_EXPORT_DECL.findall(txt))
     if ts:
+        # ambient context: a top-level declaration of a .d.ts is visible to `import type` whether or not it carries `export`
         names |= set(_EXPORT_TS.findall(txt))
+        names |= set(re.findall(r"^(?:declare\s+)?(?:abstract\s+)?(?:class|function|const|let|var|type|interface|enum)\s+([A-Za-z_$][\w$]*)", txt, re.M))
     default = bool(re.search(r"^\s*export\s+default\b", txt, re.M))
     for m in _EXPORT_LIST.finditer(txt):
         for part in m.group(1).split(","):
